@@ -307,6 +307,9 @@ func (o *Observer) checkForkChoice(ctx string, bst *model.BlockState) {
 	just := map[bc.Hash]uint64{} // memo: highest justified height on path to block
 	var jOf func(s *model.BlockState) uint64
 	jOf = func(s *model.BlockState) uint64 {
+		if s == nil {
+			return 0 // not a descendant of the finalized checkpoint
+		}
 		if s.Hash == fin.Hash {
 			return fin.Height
 		}
